@@ -5,6 +5,7 @@ package exec
 
 import (
 	"context"
+	"reflect"
 
 	"github.com/grailbio/bigslice/frame"
 	"github.com/grailbio/bigslice/slicefunc"
@@ -41,7 +42,7 @@ func (f *VerifC09Frame) Cap() int               { return f.c.Cap() }
 // VerifC09Slots is the complete state of the open-addressing table.
 type VerifC09Slots struct {
 	Data       frame.Frame // the cap table slots (view of the real storage, not a copy)
-	Hits       []int       // the real hits slice (not a copy)
+	Hits       []int       // per-slot hit counts, widened to int (a copy unless the field is []int)
 	Len, Cap   int
 	Mask       int
 	Threshold  int
@@ -53,7 +54,7 @@ func (f *VerifC09Frame) Slots() VerifC09Slots {
 	c := f.c
 	return VerifC09Slots{
 		Data:       c.data.Slice(0, c.cap),
-		Hits:       c.hits,
+		Hits:       verifC09Ints(c.hits),
 		Len:        c.len,
 		Cap:        c.cap,
 		Mask:       c.mask,
@@ -61,6 +62,31 @@ func (f *VerifC09Frame) Slots() VerifC09Slots {
 		ScratchLen: c.scratch.Len(),
 		DataLen:    c.data.Len(),
 	}
+}
+
+// verifC09Ints widens a slice of any integer element type to []int, so that the
+// accessor does not depend on the representation of the private hits field.
+func verifC09Ints(v interface{}) []int {
+	if s, ok := v.([]int); ok {
+		return s
+	}
+	rv := reflect.ValueOf(v)
+	out := make([]int, rv.Len())
+	for i := range out {
+		switch e := rv.Index(i); e.Kind() {
+		case reflect.Int, reflect.Int8, reflect.Int16, reflect.Int32, reflect.Int64:
+			out[i] = int(e.Int())
+		case reflect.Uint, reflect.Uint8, reflect.Uint16, reflect.Uint32, reflect.Uint64, reflect.Uintptr:
+			out[i] = int(e.Uint())
+		case reflect.Bool:
+			if e.Bool() {
+				out[i] = 1
+			}
+		default:
+			panic("verif C09 accessor: unsupported hits element type " + e.Type().String())
+		}
+	}
+	return out
 }
 
 // VerifC09Combiner wraps a real (spilling) combiner.
